@@ -204,6 +204,16 @@ async fn call<T: Send + 'static>(cx: &Ctx, unfrozen: bool, label: &str, fut: imp
     h.await.map_err(|e| Verdict::Violation { sig: format!("panic/{}", label), detail: format!("{}", e) })
 }
 
+/// Fields a follow-up StreamingPull request may carry besides its payload (real clients repeat some of them).
+fn ctl_extras(cx: &Ctx, mut req: deltio::pubsub_proto::StreamingPullRequest) -> deltio::pubsub_proto::StreamingPullRequest {
+    match cx.choose("stream-ctl-extra-fields", 3) {
+        1 => req.stream_ack_deadline_seconds = 10,
+        2 => req.client_id = "client-1".into(),
+        _ => {}
+    }
+    req
+}
+
 fn v2v(r: V, st: &SeqState, op: &str) -> Result<(), Verdict> {
     r.map_err(|(sig, detail)| Verdict::Violation { sig, detail: format!("{} | after sequence {:?} then {}", detail, st.trace, op) })
 }
@@ -332,6 +342,7 @@ pub async fn apply(cx: &Ctx, st: &mut SeqState, op: &Op, unfrozen: bool) -> Resu
                 Op::StreamMod(_, _, secs) => deltio::pubsub_proto::StreamingPullRequest { modify_deadline_ack_ids: vec![id.clone()], modify_deadline_seconds: vec![*secs], ..Default::default() },
                 _ => unreachable!(),
             };
+            let req = ctl_extras(cx, req);
             call(cx, unfrozen, "client:stream-ctl", async move { tx.send(req).await.is_ok() }).await?;
             let ids = vec![id];
             match &op {
@@ -363,7 +374,7 @@ pub async fn apply(cx: &Ctx, st: &mut SeqState, op: &Op, unfrozen: bool) -> Resu
                 open_stream(cx, st, s, 1000, unfrozen).await?;
                 absorb_streams(st)?;
                 let tx = st.streams[s].tx.clone();
-                let req = deltio::pubsub_proto::StreamingPullRequest { ack_ids: ids.clone(), ..Default::default() };
+                let req = ctl_extras(cx, deltio::pubsub_proto::StreamingPullRequest { ack_ids: ids.clone(), ..Default::default() });
                 call(cx, unfrozen, "client:stream-ctl", async move { tx.send(req).await.is_ok() }).await?;
                 let ended = st.streams[s].ended.lock().unwrap().clone();
                 let r: Result<(), Code> = match ended.as_deref() {
